@@ -260,8 +260,8 @@ def main(argv=None):
         signal.alarm(0)
 
         nviol, known_keys = report(pid, mod, res, known, minimise=True)
-        if not res.failures:
-            # generator sanity is only meaningful when nothing cut cases short
+        if nviol == 0:
+            # generator sanity is only meaningful when no unlisted failure cut cases short
             for lab in plan.get('required_classes', []):
                 if not res.classes.get(lab):
                     raise HarnessError('class %r promised by the design was never generated '
